@@ -68,6 +68,10 @@ def c17_1(ctx):
     ops = gi.f_opaques(r) if r not in (True, False) else []
     r_dec = gi.f_or(*[e.reach for e in dec])        # of the calls that get as far as decoding, exactly those with a message hash it
     ctx.check(sym._equiv(r, gi.f_and(r_dec, gi.f_not(atom))), "message-presence-test", ctx.where(f), "verify_message hashes the message under `%s`; an empty message is still a message: the digest must be chosen by `message is not None` alone" % ops, sample={"guards": ops})
+    # text that is no address of this network cannot have signed anything: the answer is False (not an AttributeError on None)
+    is_false = lambda e: e.kind == "return" and isinstance(e.value, ast.Constant) and e.value.value is False
+    ctx.check(sym.guard_present(w, is_false, lambda o: o.endswith(" is None") and ".parse.address(" in o), "unparseable-address-is-false", ctx.where(f),
+              "verify_message does not answer False when the text it was given parses to no address (the comparison then runs on None)")
     _refcheck(ctx, "MessageSigner.verify_message", "ms_verify_message", "verify-pipeline")
 
 
@@ -95,7 +99,12 @@ def c17_2(ctx):
     sigp = d.params()[1]
     SIG = "a2b_base64(%s)" % sigp
     w = sym.int_walk(ctx, d, {"%s[0]" % SIG})
-    s, n = sym.decisive_set(sym.exits_formula(w, ru.is_raise), U, E)
+    fr_ = sym.exits_formula(w, ru.is_raise)
+    s, n = sym.decisive_set(fr_, U, E)
+    if s == E:
+        unread = [o for e in w.exits for o in (gi.f_opaques(e.cond) if e.cond not in (True, False) else []) if isinstance(o, str) and "%s[0]" % SIG in o]
+        if unread:
+            raise Undecided("_decode_signature tests the header byte as `%s` (a table lookup or another form this rule does not read)" % unread[0][:80])
     ctx.check(s == iv(27, 34).complement(), "header-range", ctx.where(d), "_decode_signature rejects header bytes %s, must be exactly outside 27..34" % s.fmt(), sample={"subject": "first byte", "rejected": s.fmt()})
     w2 = sym.int_walk(ctx, d, {"len(%s)" % SIG})
     s2, n2 = sym.decisive_set(sym.exits_formula(w2, ru.is_raise), U, E)
@@ -122,6 +131,10 @@ def c17_3(ctx):
         w = sym.int_walk(ctx, f, {"%s[%d]" % (DEC, idx)}, {"self._generator.order()"})
         s, n = sym.decisive_set(sym.exits_formula(w, ru.is_raise), U, E)
         ctx.check(s == iv(1, ("s", -1)).complement(), "recovery-range:%s" % subj, ctx.where(f), "pair_for_message_hash rejects %s in %s, must be exactly outside [1, n-1]" % (subj, s.fmt("n")), sample={"subject": subj, "rejected": s.fmt("n")})
+    # the point at infinity is no public key: a signature that `recovers` it is invalid
+    wp = sym.walk(ctx, f)
+    ctx.check(sym.guard_present(wp, ru.is_raise, lambda o: "infinity" in o and "possible_public_pairs_for_signature(" in o), "recovered-infinity-refused", ctx.where(f),
+              "pair_for_message_hash hands out the point at infinity as the signer's key when the recovery yields it")
     _refcheck(ctx, "MessageSigner.pair_for_message_hash", "ms_pair_for_message_hash", "recovery-arithmetic")
     _refcheck(ctx, "MessageSigner.pair_matches_key", "ms_pair_matches_key", "key-comparison")
     _flagged_encoding_only(ctx)
